@@ -1,5 +1,5 @@
 import BpModel.All
-import BpProofs.ChanStep
+import BpProofs.ChanAux
 /-
   C12 — AsyncChannel: exactly-once ordered delivery, no stranded receiver.
   Only property statements live here; the invariant and its preservation are in
@@ -34,22 +34,6 @@ theorem reachable_inv (maxsize : Nat) (progs : List Prog) (cs : List Choice) : I
 theorem exactly_once (maxsize : Nat) (progs : List Prog) (cs : List Choice) :
     received (reach maxsize progs cs) ++ queuedData (reach maxsize progs cs) = (reach maxsize progs cs).putLog :=
   (reachable_inv maxsize progs cs).st.fifo.symm
-
-theorem count_le_one_of_pairwise {l : List Item} (h : l.Pairwise SendOrd) (a b : Nat) : l.count (.data a b) ≤ 1 := by
-  induction l with
-  | nil => simp
-  | cons x xs ih =>
-    rw [List.pairwise_cons] at h
-    have ih' := ih h.2
-    by_cases hx : x = .data a b
-    · subst hx
-      have : xs.count (.data a b) = 0 := by
-        rw [List.count_eq_zero]
-        intro hmem
-        have := h.1 _ hmem
-        simp [SendOrd] at this
-      simp [this]
-    · simp only [List.count_cons, beq_iff_eq, hx, if_false, Nat.add_zero]; exact ih'
 
 /-- **nothing received twice**: no data item occurs twice among received ++ buffered -/
 theorem no_duplicate (maxsize : Nat) (progs : List Prog) (cs : List Choice) (a b : Nat) :
@@ -120,27 +104,6 @@ theorem closed_no_pending (maxsize : Nat) (progs : List Prog) (cs : List Choice)
 theorem woken_runnable (s : Sys) (t : Nat) (x : Task) (g : Bool) (hx : s.tasks[t]? = some x)
     (hw : x.wait = .blocked g .woken) : runnable s t = true := by
   simp [runnable, waitOf, hx, hw]
-
-theorem quiescent_wait {s : Sys} (hq : quiescent s = true) {t : Nat} {x : Task} (hx : s.tasks[t]? = some x) :
-    x.wait = .done ∨ ∃ g, x.wait = .blocked g .pending := by
-  have hl := getElem?_lt hx
-  simp only [quiescent, List.all_eq_true, List.mem_range] at hq
-  have := hq t hl
-  simp only [runnable, waitOf, hx, Option.map_some] at this
-  cases hw : x.wait with
-  | ready => simp [hw] at this
-  | done => exact Or.inl rfl
-  | blocked g f =>
-    cases f with
-    | pending => exact Or.inr ⟨g, rfl⟩
-    | woken => simp [hw] at this
-    | cancelled => simp [hw] at this
-
-theorem tsum_zero_of {f : Task → Nat} {ts : List Task} (h : ∀ (t : Nat) (x : Task), ts[t]? = some x → f x = 0) : tsum f ts = 0 := by
-  apply tsum_eq_zero_of_forall
-  intro x hx
-  obtain ⟨t, ht, rfl⟩ := List.getElem_of_mem hx
-  exact h t _ (List.getElem?_eq_getElem ht)
 
 /-- **deadlock freedom as safety**: in a quiescent state (no handle ready) of a closed channel
     no task is inside `get()` — no receiver is blocked. -/
